@@ -24,6 +24,28 @@ func VerifRun_C02f() {
 	uri := lsp.DocumentURI("file://" + a)
 	id := lsp.TextDocumentIdentifier{URI: uri}
 	cur := base
+	if verifBool("openedDirty") {
+		// the editor restores a buffer with unsaved changes: the text sent with didOpen differs from the file
+		opened := base + "function M.restored() end\n"
+		_ = l.TextDocumentDidOpen(ctx, lsp.DidOpenTextDocumentParams{TextDocument: lsp.TextDocumentItem{URI: uri, Text: opened}})
+		syms0, _ := l.TextDocumentSymbol(ctx, lsp.DocumentSymbolParams{TextDocument: id})
+		verifReach("outlined")
+		found := false
+		var walk0 func(v []lsp.DocumentSymbol)
+		walk0 = func(v []lsp.DocumentSymbol) {
+			for i := range v {
+				if v[i].Name == "restored" || v[i].Name == "M.restored" {
+					found = true
+				}
+				walk0(v[i].Children)
+			}
+		}
+		walk0(syms0)
+		if !found {
+			verifViolation("C02-opened-text-differs-from-disk", "right after didOpen with a text that differs from the file on disk, requests are answered from the file on disk")
+		}
+		return
+	}
 	_ = l.TextDocumentDidOpen(ctx, lsp.DidOpenTextDocumentParams{TextDocument: lsp.TextDocumentItem{URI: uri, Text: cur}})
 	rounds, free := verifParam("ROUNDS"), verifParam("FREE")
 	choice := make([]int, free)
@@ -55,9 +77,17 @@ func VerifRun_C02f() {
 		}
 	}
 	edit(rounds)
+	lateClass := ""
 	// optionally the document is saved, then blank lines are inserted at the top and it is saved again (a save
 	// whose text differs from the previous save only in leading white space)
-	if verifBool("blankLinesThenSave") {
+	final := verifConcretize(verifRange("final", 0, 2))
+	if final == 2 {
+		// the document was saved earlier; the file watcher reports that save late, after the user has typed
+		// on: the file on disk is older than the buffer, and the buffer is what requests are about
+		_ = l.WorkspaceChangeWatchedFiles(ctx, lsp.DidChangeWatchedFilesParams{Changes: []lsp.FileEvent{{URI: uri, Type: lsp.Changed}}})
+		lateClass = "" // (a defect fixed in /repo: see known_findings.txt)
+	}
+	if final == 1 {
 		txt := cur
 		verifVFSPut(a, []byte(txt))
 		_ = l.TextDocumentDidSave(ctx, lsp.DidSaveTextDocumentParams{TextDocument: id, Text: &txt})
@@ -135,10 +165,10 @@ func VerifRun_C02f() {
 	}
 	walk2(syms)
 	if has("f"+strconv.Itoa(rounds)) && !placed {
-		verifViolation("", "the outline places a function on another line than the current buffer does: the request was answered from older text")
+		verifViolation(lateClass, "the outline places a function on another line than the current buffer does: the request was answered from older text")
 	}
 	if !has("f"+strconv.Itoa(rounds)) || !has("f"+strconv.Itoa(rounds-1)) {
-		verifViolation("", "a function of the current buffer is missing from the outline: the request was answered from older text")
+		verifViolation(lateClass, "a function of the current buffer is missing from the outline: the request was answered from older text")
 	}
 	for k := 0; k+1 < rounds; k++ {
 		if has("f" + strconv.Itoa(k)) {
